@@ -244,6 +244,63 @@ def run(ck, only=None):
             ck.count()
             ck.nontriv(jid)
             judge(ck, f"depth family={name} depth={d}", {"kind": "depth", "family": name, "depth": int(d)}, res[jid], acc, msg)
+        # the same inputs through the production CLI binary: the process-level set-up (which thread generates, with what stack)
+        # is part of what a user runs
+        common.build_cli()
+        common.build_cli_dev()
+
+        def cli_one(item):
+            jid, p, exe = item
+            name = jid.split("|")[1]
+            cmd = [exe, p, "--formatter", "none"] + (["--", "-x", "c++", "-std=c++14"] if name.endswith(".hpp") else [])
+            try:
+                pr = common.sh(cmd, timeout=120, cwd=wd)
+                return jid, exe, pr.returncode, pr.stderr.decode(errors="replace")[-300:]
+            except Exception as e:
+                return jid, exe, "timeout", str(e)[:100]
+        cli_items = [(jid, p, exe) for jid, p in info.items() if ck.tier == "quick" or int(jid.split("|")[2]) % 10 == 0 or int(jid.split("|")[2]) < 4
+                     for exe in (common.CLI, common.CLI_DEV)]
+        for jid, exe, rc, err in common.pmap(cli_one, cli_items):
+            _, name, d = jid.split("|")
+            prof = "dev" if exe == common.CLI_DEV else "release"
+            acc, msg = classify(info[jid], ["-x", "c++", "-std=c++14"] if name.endswith(".hpp") else [], wd)
+            ck.count()
+            ck.nontriv("cli" + prof + jid)
+            det = {"kind": "depth", "family": name, "depth": int(d), "cli": True}
+            if acc not in (True, False):
+                continue
+            if rc == "timeout" or (isinstance(rc, int) and (rc < 0 or rc > 1 or (acc and rc != 0))):
+                ck.violation(f"depth-cli[{prof}] family={name} depth={d} exit={rc}", dict(det, why=f"the {prof}-profile bindgen binary ended with {rc} on a header clang {'accepts' if acc else 'rejects'}: {err}"))
+            elif not acc and rc == 0:
+                ck.violation(f"depth-cli[{prof}] family={name} depth={d} bindings-for-rejected", dict(det, why=f"the {prof}-profile bindgen binary produced bindings for a header clang rejects"))
+        ck.extra["depth_cases_through_cli"] = len(cli_items)
+
+    # ---- (vii) generations on threads other than the one that generated first ---------
+    if not only or only.get("kind") == "threads":
+        hs = [h for k, h in enumerate(common.repo_headers()) if k % (40 if ck.tier == "quick" else 6) == 3]
+        jobs, info = [], {}
+        for h in hs:
+            if only and only.get("header") != os.path.basename(h):
+                continue
+            args, cb = common.repo_header_args(h)
+            if cb:
+                continue
+            jid = "thr|" + os.path.basename(h)
+            jobs.append({"id": jid, "mode": "history", "jobs": [{"args": args}, {"args": args}, {"args": args}], "fresh": True, "thread_per_generation": True, "timeout": 120})
+            info[jid] = h
+        res = common.run_jobs(jobs, wd, timeout=120)
+        for jid, h in info.items():
+            r = res[jid]
+            ck.count()
+            ck.nontriv(jid)
+            det = {"kind": "threads", "header": os.path.basename(h)}
+            if r["status"] != "ok":
+                ck.violation(f"threads header={os.path.basename(h)} {r['status']}", dict(det, why=f"three generations, each on a thread of its own: process {r['status']}: {str(r)[:200]}"))
+                continue
+            sts = [o.get("status") for o in r["outs"]]
+            if "panic" in sts or len(set(sts)) != 1:
+                ck.violation(f"threads header={os.path.basename(h)} statuses={sts}", dict(det, why=f"three generations of one header, each on a thread of its own, ended {sts}: {[str(o.get('panic') or o.get('err'))[:120] for o in r['outs']]}"))
+        ck.extra["second_thread_histories"] = len(info)
 
     # ---- (v) calling-convention and type attributes in every declarator position -------
     if not only or only.get("kind") == "attr":
